@@ -302,7 +302,9 @@ def check_events(ctx):
     for meth, trans in (("control_switch_online", "switch_online"), ("control_switch_offline", "switch_offline"), ("control_switch_online_local", "switch_online_local"), ("control_switch_online_remote", "switch_online_remote")):
         f = cls.methods[meth]
         ctx.touch(f)
-        t = [call_name(c).split(".")[-1] for c in calls_in(f.node) if (call_name(c) or "").startswith("self._control_state.")]
+        from .. import normal
+
+        t = [call_name(c).split(".")[-1] for c in calls_in(normal.normalised(ctx, f)) if (call_name(c) or "").startswith("self._control_state.")]  # a local for the machine is the machine
         ok = t == [trans]
         ctx.ob("C11.S1", f.qualname, ok, f"{meth}() requests {trans}" if ok else f"{meth}() requests {t}", where=f.where)
 
